@@ -5,7 +5,9 @@ import json, vlib, h2common, c11
 def run(ctx):
     ctx.rule = ("Same schedules as C09 (H2Relay.tla: per-stream logical element logs, continuation state, PrefixFidelity, delivery at "
                 "quiescence); receivers decode every relayed header block with their own HPACK state and compare lists, END_STREAM "
-                "position, DATA bytes and RST_STREAM per stream; H2Hpack.tla model-checks dynamic-table size changes and all its "
+                "position, DATA bytes, RST_STREAM codes and PUSH_PROMISE (promised id, header list) per stream; schedules carry PRIORITY frames, "
+                "priority fields on HEADERS and header blocks larger than a frame (no relayed frame may exceed the receiver's limit), "
+                "PING and GOAWAY must have reached the receiver at quiescence; H2Hpack.tla model-checks dynamic-table size changes and all its "
                 "schedules (SETTINGS_HEADER_TABLE_SIZE announced / applied / blocks in every order) are replayed. "
                 "Non-trivial = schedule in which the receiver got at least one frame.")
     binp = h2common.run(ctx, ("C10",))
